@@ -117,20 +117,20 @@ pub fn gen(tier: Tier, rng: &mut Rng) -> Vec<Sx> {
     let nent = ENTRIES.len() as u64;
     // 1. identifier-alphabet expressions for the evaluator (the model predicts the outcome exactly)
     let alpha: Vec<char> = "abx.é💥()+-*/% ".chars().collect();
-    let n0 = if tier == Tier::Thorough { 200000 } else { 6000 };
+    let n0 = if tier == Tier::Thorough { 40000 } else { 6000 };
     for _ in 0..n0 { let len = rng.range(0, 14); let s: String = (0..len).map(|_| *rng.pick(&alpha)).collect(); v.push(mk(0, &s)); }
     // all single insertions of multi-byte characters into a few expressions
     for base in ["a+b", "a * b - c", "(a+b)*c", "x", "a%b/c"] { for c in MB { let cs: Vec<char> = base.chars().collect(); for i in 0..=cs.len() {
         let mut w = cs.clone(); w.insert(i, c); let s: String = w.into_iter().collect(); v.push(mk(0, &s)); v.push(mk(1, &s)); } } }
     // 2. seeds and their mutants on every entry point
     for s in SEEDS { for e in 1..nent { v.push(mk(e, s)); } }
-    let n1 = if tier == Tier::Thorough { 120000 } else { 5000 };
+    let n1 = if tier == Tier::Thorough { 30000 } else { 5000 };
     for _ in 0..n1 { let base: &str = *rng.pick(&SEEDS); let s = mutate(rng, base); let e = rng.range(1, nent - 1); v.push(mk(e, &s)); if rng.chance(1, 3) { v.push(mk(rng.range(1, nent - 1), &s)); } }
     // 3. token soups
-    let n2 = if tier == Tier::Thorough { 60000 } else { 3000 };
+    let n2 = if tier == Tier::Thorough { 15000 } else { 3000 };
     for _ in 0..n2 { let k = rng.range(1, 30); let s: Vec<&str> = (0..k).map(|_| *rng.pick(&TOKENS)).collect(); let s = s.join(if rng.chance(1, 2) { " " } else { "" }); v.push(mk(rng.range(1, nent - 1), &s)); }
     // 4. raw bytes, lossily decoded
-    let n3 = if tier == Tier::Thorough { 40000 } else { 2000 };
+    let n3 = if tier == Tier::Thorough { 10000 } else { 2000 };
     for _ in 0..n3 { let k = rng.range(0, 64); let b: Vec<u8> = (0..k).map(|_| rng.below(256) as u8).collect(); v.push(mk(rng.range(1, nent - 1), &String::from_utf8_lossy(&b))); }
     // 4b. case-length-changing characters at token boundaries, on every entry point: (A) directly before a blank
     //     (a shrinking character just before a keyword), (B) somewhere before a blank-delimited token with a
@@ -172,7 +172,7 @@ pub fn gen(tier: Tier, rng: &mut Rng) -> Vec<Sx> {
     //     characters of every class (letter, digit, other numeric, white space, symbol)
     let qalpha: Vec<&str> = vec!["a", "b", "X", "_", ".", "1", "0", "42", "-", "\"", "\\", "!", "(", ")", "?", "&&", "||", "==", "!=", ">=", "<=", ">", "<", "=", "&", "|",
         " ", "\t", "true", "false", "null", "n", "t", "é", "٣", "½", "\u{3000}", "💥", "ß", "1.5", "-7", "1.", ".5", "1.2.3", "--1", "truex", "null_", "9223372036854775808", "1e5"];
-    let n4 = if tier == Tier::Thorough { 150000 } else { 5000 };
+    let n4 = if tier == Tier::Thorough { 30000 } else { 5000 };
     for _ in 0..n4 { let k = rng.range(0, 12); let s: String = (0..k).map(|_| *rng.pick(&qalpha)).collect(); v.push(mk(5, &s));
         if rng.chance(1, 4) { let q = format!("{}{}", rng.pick(&["", "NOT ", " NOT  ", "NOT", "not "]), s); v.push(mk(4, &q)); } }
     for s in ["User.IsVIP == true && Order.Total > 1000 || !(User.IsBanned == true)", "(a == true || b == true) && c == \"x y\" && ?X != 42.5", "a == \"q\\\"r\\n\" || !(!b)", "  x  "] {
